@@ -102,7 +102,8 @@ def oracle(name, ib, mb, meta):
     cap = V.facts().get('LLTD_SEE_LIST_MAX', 0)
     if name.startswith(('flood_', 'floodr_')) and len(lives) > 300 and not (cap and 3 * cap > len(lives)):
         a_, b_ = lives[2 * len(lives) // 3][1], lives[-3][1]
-        if b_ > a_: fails.append((len(ib) - 3, 'retained memory keeps growing with the history: %d live allocations after %d frames, %d after %d frames' % (a_, 2 * len(lives) // 3, b_, len(lives) - 3)))
+        # while the observation list is still filling towards its bound, growth is what it should be: only growth beyond a FULL list is a leak
+        if b_ > a_ and not (name.startswith('floodr_') and cap and a_ < cap): fails.append((len(ib) - 3, 'retained memory keeps growing with the history: %d live allocations after %d frames, %d after %d frames' % (a_, 2 * len(lives) // 3, b_, len(lives) - 3)))
     return fails
 def count(name, lines, ib, stats, meta):
     for b in ib:
